@@ -263,7 +263,7 @@ func init() {
 		Assumptions: []string{"the grammar in /verif/harness/grammar (written from the Redis command reference) states the intended dispatch", "MSET/HMSET decomposition order is unspecified"},
 		Setup: func(tier string, seed uint64) int {
 			c05.seed, c05.tier = seed, tier
-			c05.n = (len(grammar.Specs) + 2) * map[string]int{"quick": 400, "thorough": 8000}[tier]
+			c05.n = (len(grammar.Specs) + 2) * map[string]int{"quick": 400, "thorough": 40000}[tier]
 			return c05.n
 		},
 		Run: c05run,
